@@ -383,7 +383,7 @@ pub fn def(idx: usize, prev: Vec<Def>, o: DefOpts) -> BoxedStrategy<Def> {
             )
                 .prop_map(move |(skip, cd, repl, crate_attr, split)| (skip, cd, repl, crate_attr, split));
             let encode = o.encode;
-            (body, attr, if rich { docs().boxed() } else { Just(vec![]).boxed() }, prop::bool::weighted(if rich { 0.35 } else { 0.0 }), vec(prop::sample::select(MODULE_NAMES.to_vec()), 1..3))
+            (body, attr, if rich { docs().boxed() } else { Just(vec![]).boxed() }, prop::bool::weighted(if rich { 0.35 } else { 0.15 }), vec(prop::sample::select(MODULE_NAMES.to_vec()), 1..3))
                 .prop_map(move |(body, (skip, cd, repl, crate_attr, split), docs, via_macro, modules)| {
                     let name = format!("{}{}", TYPE_NAMES[(salt as usize) % TYPE_NAMES.len()], idx);
                     let mut modules: Vec<String> = modules.into_iter().map(|s| s.to_string()).collect();
@@ -468,7 +468,13 @@ pub fn def(idx: usize, prev: Vec<Def>, o: DefOpts) -> BoxedStrategy<Def> {
                                 }
                             }
                         }
-                        d.via_macro = via_macro && matches!(&d.body, Body::Struct(Shape::Named, fs) if !fs.is_empty() && fs[0].attr == FieldAttr::default() && fs[0].docs.is_empty() && !fs[0].ty.any(&|t| matches!(t, TE::SelfTy)));
+                        // (the member may carry any attribute - compact, skip, encoded_as, rename - and docs:
+                        // the derive has to look through the group for each of them)
+                        d.via_macro = via_macro && matches!(&d.body, Body::Struct(Shape::Named, fs) if !fs.is_empty() && !fs[0].ty.any(&|t| matches!(t, TE::SelfTy)));
+                    } else {
+                        // the value lanes (C03) route members through macro fragments too: a compact,
+                        // encoded_as or skipped member whose type arrives as a None-delimited group
+                        d.via_macro = via_macro && matches!(&d.body, Body::Struct(Shape::Named, fs) if !fs.is_empty() && !fs[0].ty.any(&|t| matches!(t, TE::SelfTy)));
                     }
                     d
                 })
